@@ -382,9 +382,21 @@ func ruleBodyDrain(r *core.Reporter) {
 	var bad ssa.Instruction
 	res := ir.Reach([]ir.Pt{ir.Entry(pb)}, ir.Opts{Stop: ir.WithSummaries(drain, 2)})
 	for _, ret := range ir.Returns(pb) {
-		if len(ret.Results) == 1 && ir.ReturnsNil(ret, 0) {
+		if len(ret.Results) != 1 {
+			continue
+		}
+		mayNil := ir.ReturnsNil(ret, 0)
+		if ph := ir.PhiResult(ret); ph != nil {
+			// one return fed by several inlined phases: nil on the edges that carry the nil constant
+			for _, e := range ph.Edges {
+				if ir.IsNilConst(e) {
+					mayNil = true
+				}
+			}
+		}
+		if mayNil {
 			nilRets++
-			if res.Reached[ret] {
+			if res.NilReturnReached(ret) {
 				bad = ret
 			}
 		}
